@@ -398,6 +398,20 @@ func init() {
 					}
 				}
 			}
+			// partial expiry: a Collect that times out only the earliest of three transactions (A at 2, B at 3, C at 4;
+			// Collect(3) takes A) overlaps a thread that registers an even earlier one, collects again at a time
+			// between the deadlines, and stops it: anything a Collect remembers about "the earliest deadline left"
+			// must not outlive a concurrent Start
+			part := []agentOp{{Kind: "start", ID: 3, T: 1}, {Kind: "collect", T: 2}, {Kind: "collect", T: 5}, {Kind: "stop", ID: 3}, {Kind: "stop", ID: 1}}
+			for _, first := range [][]agentOp{{{Kind: "collect", T: 3}}, {{Kind: "collect", T: 3}, {Kind: "collect", T: 4}}} {
+				for _, a1 := range part {
+					for _, a2 := range part {
+						for _, a3 := range part {
+							explored(c14Program{Init: 3, Mode: 0, Threads: [][]agentOp{first, {a1, a2, a3}}})
+						}
+					}
+				}
+			}
 			// more expired transactions than one Collect pass may hold (the source sizes its scratch for 100):
 			// Collect must still be one atomic step against Stop / Close / Start of those ids
 			for _, other := range [][]agentOp{
